@@ -27,6 +27,14 @@ def micro(v):
     return int(Decimal(repr(float(v))) * 1000000)
 
 
+class _Snap:
+    """what a decoded message carries, as plain attributes (the oracle does not ask the library's object for
+    attributes it may not have - how the object answers such a question is part of what is being checked)"""
+
+    def __init__(self, m):
+        self.__dict__.update(m.asdict())
+
+
 class Prop:
     lean_files = ['PyaisVerif/Properties/C19.lean']
     rule = ('decoded messages of position and non-position types, including truncated position reports whose lat/lon '
@@ -74,6 +82,9 @@ class Prop:
                 bits = gen.payload_bits(rng, c, overrides=ov)
             else:
                 bits = gen.payload_bits(rng, c, length=rng.choice([None, 300]) if c in ('MessageType8', 'MessageType14') else None)
+            if rng.random() < 0.08:
+                # hardly anything received: the message type alone, or with a part of the MMSI (every field None)
+                bits = bits[:rng.choice([6, 6, 8, 12, 37, 38])]
             if c == 'MessageType1' and rng.random() < 0.3:
                 bits = '000000' + bits[6:]         # message id 0 is decoded like a type 1 message, with msg_type 0
             payload, _ = gen.armor(bits)
@@ -196,7 +207,7 @@ class Prop:
             decoded = []
             for i, l in enumerate(lines):
                 try:
-                    decoded.append((i, pyais.decode(l)))
+                    decoded.append((i, _Snap(pyais.decode(l))))
                 except Exception:  # noqa
                     pass
             menu = self.filters(rng, [m for _, m in decoded], zone)
@@ -244,7 +255,7 @@ class Prop:
         decoded = []
         for i, l in enumerate(lines):
             try:
-                decoded.append((i, pyais.decode(l)))
+                decoded.append((i, _Snap(pyais.decode(l))))
             except Exception:  # noqa
                 pass
         o = impl.step('chain %s - %s' % (inp['chain'], ' '.join(inp['lines'])))
